@@ -804,6 +804,7 @@ class Evaluator:
         self.effects = []
         self._fn_cache = {}
         self.lenient = False
+        self.inject_expr = {}   # normalised source text of an expression -> value it is to have (`self.buf.get(pos)` -> Some(b))
         self.inject = {}        # name -> value: a `let` (or any pattern) that binds this name binds the given value instead
 
     # ---- helpers
@@ -1022,6 +1023,10 @@ class Evaluator:
     # ---- expressions
     def ev(self, e, env, p, scopes):
         k = e.kind
+        if self.inject_expr and k in ("mcall", "call", "index", "field", "path"):
+            t = norm(p.text(e))
+            if t in self.inject_expr:
+                return self.inject_expr[t]
         if k == "int":
             return e[1]
         if k == "bool":
@@ -1488,12 +1493,13 @@ class Outcome:
         return self.how in ("error", "panic") or (isinstance(self.value, tuple) and bool(self.value) and self.value[0] == "Err")
 
 
-def run(X, code, env, src, scopes=None, depth=6, is_expr=False, inject=None, lenient=False):
+def run(X, code, env, src, scopes=None, depth=6, is_expr=False, inject=None, lenient=False, inject_expr=None):
     """run `code` (the inside of a block, or one expression) with the given environment; inject = {local name: value} gives
     the values of locals that the code itself binds from something opaque (`let c = self.peek_byte()?;`)"""
     ev = Evaluator(src, X, depth)
     ev.inject = dict(inject or {})
     ev.lenient = lenient
+    ev.inject_expr = {norm(k): v for k, v in (inject_expr or {}).items()}
     scopes = list(scopes or []) + [src]
     if code not in scopes:
         scopes = [code] + scopes
